@@ -1,7 +1,7 @@
 (** C17 — instance collapse transforms contents exactly and leaves the template intact.
     Only statements here; proofs are in Rot/C17GeomProofs.v, SM/C17NameProofs.v, SM/C17RoundsProofs.v,
     SM/C17SubstProofs.v, SM/C17SitesProofs.v, SM/C17FrameProofs.v (the last one on top of C09's SM/StoreCopyProofs.v),
-    SM/C17GlobalProofs.v, SM/C17CacheProofs.v, SM/C17ComposeProofs.v.
+    SM/C17GlobalProofs.v, SM/C17CacheProofs.v, SM/C17ComposeProofs.v, SM/C17WholeProofs.v, SM/C17PropertyProofs.v.
     Every [g_...] below is GENERATED from today's math.py / vmf.py / instancing.py (Gen/C17Formulas_gen.v) by
     symbolic execution of the Python method bodies; [place], [vrot], [mmul], [uvplace], [texcoord], [orth] are the
     hand-written specification (Rot/C17Base.v).  Arithmetic is over R: floating-point rounding is outside the model. *)
@@ -10,7 +10,8 @@ From SV Require Import Rot.C17Base SM.C17Name SM.C17Rounds SM.C17Subst SM.C17Sit
                        SM.StoreCopyProofs SM.C17Frame SM.C17Global SM.C17Cache SM.C17Compose
                        Gen.C17Formulas_gen
                        Rot.C17GeomProofs SM.C17NameProofs SM.C17RoundsProofs SM.C17SubstProofs SM.C17SitesProofs
-                       SM.C17FrameProofs SM.C17GlobalProofs SM.C17CacheProofs SM.C17ComposeProofs.
+                       SM.C17FrameProofs SM.C17GlobalProofs SM.C17CacheProofs SM.C17ComposeProofs
+                       SM.C17Whole SM.C17WholeProofs SM.C17PropertyProofs.
 Import ListNotations.
 (* String is imported for the census names; [length] keeps meaning the length of a list *)
 Local Notation length := List.length (only parsing).
@@ -323,6 +324,81 @@ Theorem c17_collapse_order_independent : forall (T G P A M Obs : Type) (obs : T 
   forall cs cs' t g, Permutation.Permutation cs cs' ->
   Permutation.Permutation (c_history T G P A M collapse cs t g) (c_history T G P A M collapse cs' t g).
 Proof. exact order_independent. Qed.
+
+(** *** THE PROPERTY AS ONE STATEMENT over the generated objects (round 4).  The four hypotheses of the two theorems above
+    are no longer assumed but derived, in one machine (SM/C17Whole.v): a collapse is the run of the generated skeleton of
+    collapse_one over a program state made of C09's heap (who holds a reference to what), the values in hand and the
+    process-global state; what it adds to the map is the generated placement arithmetic [g_arith] applied item by item.
+      - template read only through its value + template intact:  from C09's census / frame theorems, for every copy
+        census in which the classes reached by copy() from the copied classes are fresh (obligation
+        `copied_template_classes_fresh`, with [all] := C09's generated [all_census]);
+      - independent of the process state:  from [fn_ok] of the skeleton (obligation `process_state_only_gates_logging`;
+        collapse_one is in the list: `collapse_one_skeleton_present`);
+      - placement equivariance:  from the identity laws of the generated arithmetic (c17_generated_arithmetic_identity).
+    What remains assumed is [respects], about the meaning of the individual statements (universally quantified [m]):
+    a statement writes through references it holds or builds a copy as the census says, and what it computes depends on
+    the template only through the template's value.
+    Conclusion: every result (how control left collapse_one, what was added to the map) of ANY history of collapses of
+    one template in one process equals what that call alone gives on the untouched template, in a new process (any
+    process state [g0]), at the identity placement, moved to its own placement. *)
+Theorem c17_property : forall (all : list (string * census)),
+  copied_classes_fresh all g_collapse_copied_classes = true ->
+  process_state_only_gates_logging = true ->
+  forall name body, In (name, body) g_process_state_functions ->
+  forall (X G A D : Type) (a : loc) (m : sem (pstate X) G), respects all g_collapse_copied_classes X G a m ->
+  forall (enter : A -> X) (content : X -> list (item D)) cs t g g0, wf_T a t ->
+    c_history T G placement A (added D) (collapse X G m A D g_arith body enter content) cs t g =
+    map (as_if_first T G placement A (added D) (collapse X G m A D g_arith body enter content)
+           ident_placement (transform D g_arith) t g0) cs.
+Proof. exact (fun all => property_each_collapse_as_if_first all g_collapse_copied_classes g_process_state_functions). Qed.
+
+(** ... hence "in any order": a permuted history gives the permuted results ... *)
+Theorem c17_property_any_order : forall (all : list (string * census)),
+  copied_classes_fresh all g_collapse_copied_classes = true ->
+  process_state_only_gates_logging = true ->
+  forall name body, In (name, body) g_process_state_functions ->
+  forall (X G A D : Type) (a : loc) (m : sem (pstate X) G), respects all g_collapse_copied_classes X G a m ->
+  forall (enter : A -> X) (content : X -> list (item D)) cs cs' t g, wf_T a t -> Permutation.Permutation cs cs' ->
+    Permutation.Permutation (c_history T G placement A (added D) (collapse X G m A D g_arith body enter content) cs t g)
+                            (c_history T G placement A (added D) (collapse X G m A D g_arith body enter content) cs' t g).
+Proof. exact (fun all => property_order_independent all g_collapse_copied_classes g_process_state_functions). Qed.
+
+(** ... and after the whole history every observation of the template is what it was, the process still holds it
+    separated from all copies (the state from which the next collapse starts). *)
+Theorem c17_property_template_intact : forall (all : list (string * census)),
+  copied_classes_fresh all g_collapse_copied_classes = true ->
+  forall (body : skel) (X G A D : Type) (a : loc) (m : sem (pstate X) G), respects all g_collapse_copied_classes X G a m ->
+  forall (enter : A -> X) (content : X -> list (item D)) cs t g, wf_T a t ->
+    let t' := final_T X G m A D g_arith body enter content cs t g in
+    wf_T a t' /\ forall n, unfold n (fst t') (VRef a) = unfold n (fst t) (VRef a).
+Proof. exact (fun all => property_template_intact all g_collapse_copied_classes). Qed.
+
+(** The generated arithmetic: placing at (0, I) changes no point, direction, texture axis or orientation, and the other
+    generated placement functions (entity origin, position keyvalues, explicit vertices, displacement data) are the
+    same arithmetic as the four of [g_arith]. *)
+Theorem c17_generated_arithmetic_identity : arith_identity g_arith.
+Proof. exact g_arith_identity. Qed.
+
+Theorem c17_generated_arithmetic_covers_sites : forall p o m,
+  g_collapse_ent_origin p o m = ar_point g_arith p o m /\ g_fixup_key_position p o m = ar_point g_arith p o m /\
+  g_side_strata_point p o m = ar_point g_arith p o m /\ g_side_disp_pos p o m = ar_point g_arith p o m /\
+  g_side_vert_normal p m = ar_dir g_arith p m /\ g_side_vert_offset p m = ar_dir g_arith p m /\
+  g_side_vert_offset_norm p m = ar_dir g_arith p m.
+Proof. exact g_arith_covers_sites. Qed.
+
+(** The derivations behind c17_property, for any arithmetic / census / skeleton: a statement that respects the census
+    keeps the template's value and the separation (C09's census theorem + frame theorem, one statement at a time) ... *)
+Theorem c17_disciplined_statement_keeps_template : forall all copied, copied_classes_fresh all copied = true ->
+  forall a h R h' R', disciplined all copied h R h' R' -> wf_hr a h R ->
+  (forall n, unfold n h' (VRef a) = unfold n h (VRef a)) /\ wf_hr a h' R'.
+Proof. exact disciplined_frame. Qed.
+
+(** ... and two runs of any skeleton from states that hold the same values and see the same template value stay in
+    step: same values, same control outcome, same process state, template value kept on both sides. *)
+Theorem c17_run_reads_template_by_value : forall all copied, copied_classes_fresh all copied = true ->
+  forall (X G : Type) (a : loc) (m : sem (pstate X) G), respects all copied X G a m ->
+  forall o p s s' g, sim X a o s s' -> sim_out X G a o (run (pstate X) G m p s g) (run (pstate X) G m p s' g).
+Proof. exact run_sim. Qed.
 
 (** *** `substitute` is a function of the current table, although the compiled pattern is cached on the object.
     For every list of method shapes passing [shape_ok] (the generated one does: obligation
